@@ -28,6 +28,8 @@ type raceT1 struct {
 type raceT2 struct {
 	raceT1
 	C []int
+	Z []int
+	M map[string]int
 }
 type raceT3 struct {
 	N    int
@@ -47,6 +49,7 @@ func raceFiles(v int) map[string]string {
 		"/edit.jet":  edit,
 		"/deep.jet":  `{{ .In.A }}/{{ .In.B }}/{{ .Name }}/{{ len(.In.C) }}`,
 		"/incl2.jet": `{{include "/edit.jet"}}|{{include "/inc.jet" 5}}`,
+		"/rng.jet":   `{{range .Z}}x{{else}}e{{end}}{{range i, x := .C}}{{range .C}}{{.}}{{end}};{{range .Z}}{{else}}{{range k, v := .M}}{{k}}{{v}}{{end}}{{end}}{{end}}{{range .M}}{{.}}{{else}}E{{end}}`,
 	}
 }
 
@@ -55,7 +58,7 @@ func raceData(name string) interface{} {
 	case "/deep.jet":
 		return raceT3{N: 3, Name: "n<", In: raceT2{raceT1: raceT1{A: 9, B: "b"}, C: []int{1, 2}}}
 	default:
-		return raceT2{raceT1: raceT1{A: 4, B: "x&y"}, C: []int{7, 8, 9}}
+		return raceT2{raceT1: raceT1{A: 4, B: "x&y"}, C: []int{7, 8, 9}, M: map[string]int{"k": 1}}
 	}
 }
 
@@ -95,7 +98,7 @@ func init() {
 		ng := atoi(cmd.Xs[2].A)
 		nops := atoi(cmd.Xs[3].A)
 		dev := cmd.Xs[4].A == "true"
-		names := []string{"/page.jet", "/main.jet", "/glob.jet", "/edit.jet", "/deep.jet", "/incl2.jet", "/base.jet"}
+		names := []string{"/page.jet", "/main.jet", "/glob.jet", "/edit.jet", "/deep.jet", "/incl2.jet", "/base.jet", "/rng.jet", "/rng.jet"}
 		// serial expectations: every admissible version of the edited file and of the global
 		allowed := map[string]map[string]bool{}
 		for _, n := range names {
